@@ -3,7 +3,10 @@
    * `IncompleteInput` / `EmptyInput`: the NUL was taken (`pos = n + 1`);
    * `InvalidInput`: the latch holds the last byte taken; it is either a non-NUL byte of the text, or the NUL, and
      then the text ends with a number byte or (comments enabled) with `/` (`Dang`);
-   * `TooDeep` / `NoMemory`: the NUL was not taken. -/
+   * `TooDeep`: the NUL was not taken;
+   * `NoMemory`: after a quoted string that is too long the reader stands behind the closing quote, nothing is latched
+     (`Fin`); after an unquoted key that is too long the latch holds the byte that ended the key — possibly the NUL —
+     and the bytes in front of it end with more than `maxStrLen` identifier bytes (`FinK`, `LongKey`). -/
 import AJ.Lemmas.ClassKont
 import AJ.Lemmas.Latch
 set_option linter.unusedSimpArgs false
@@ -40,6 +43,30 @@ def Fin (cfg : Cfg) (t : List Byte) (n : Nat) (okP : St → Prop) : Code → St 
   | .tooDeep, s => Tk t n s
   | .noMemory, s => Lv t n s ∧ s.l.loaded = false
   | .fuel, _ => True
+
+/-- `e` ends with a run of identifier bytes (the bytes of an unquoted key) longer than the string limit -/
+def LongTail (cfg : Cfg) (e : List Byte) : Prop :=
+  ∃ pre k, e = pre ++ k ∧ (∀ c ∈ k, inUnquoted c = true) ∧ cfg.maxStrLen < k.length
+
+/-- the bytes in front of the latched byte end with a too long run of identifier bytes -/
+def LongKey (cfg : Cfg) (t : List Byte) (s : St) : Prop := LongTail cfg (t.take (s.l.pos - 1))
+
+/-- `Fin` for the routines that read object keys: `NoMemory` is also the answer to an unquoted key that is too long, and
+    then the latch holds the byte that ended the key -/
+def FinK (cfg : Cfg) (t : List Byte) (n : Nat) (okP : St → Prop) : Code → St → Prop
+  | .ok, s => okP s
+  | .incomplete, s => s.l.pos = n + 1
+  | .empty, s => s.l.pos = n + 1
+  | .invalid, s => Ld_d0 t n s ∧ (s.l.cur = 0 → Dang cfg t n)
+  | .tooDeep, s => Tk t n s
+  | .noMemory, s => Lv t n s ∧ (s.l.loaded = true → LongKey cfg t s)
+  | .fuel, _ => True
+
+theorem Fin.toK {cfg : Cfg} {t : List Byte} {n : Nat} {okP : St → Prop} {c : Code} {s : St}
+    (h : Fin cfg t n okP c s) : FinK cfg t n okP c s := by
+  cases c
+  case noMemory => exact ⟨h.1, fun hl => by rw [h.2] at hl; cases hl⟩
+  all_goals exact h
 
 section
 variable {cfg : Cfg} {t : List Byte} {n : Nat} (hN : NulAt t n)
@@ -295,6 +322,40 @@ theorem gh_parseUnquoted : ∀ fuel acc s, Lv t n s → Lv t n (parseUnquoted fu
     split
     · rename_i hu; exact ih _ _ (Lv.step hN h (inUnquoted_nz hu))
     · exact (Lv.look hN h).1.1
+
+/-- an unquoted key: when the loop stops on a latched byte, the bytes in front of it are the bytes of the key -/
+theorem gh_parseUnquoted_key : ∀ fuel acc s, Lv t n s → (parseUnquoted fuel acc s).2.l.loaded = true →
+    ∃ x, (parseUnquoted fuel acc s).1 = acc.reverse ++ x ∧ (∀ c ∈ x, inUnquoted c = true) ∧
+      t.take ((parseUnquoted fuel acc s).2.l.pos - 1) = t.take ((cur s).2.l.pos - 1) ++ x := by
+  intro fuel
+  induction fuel with
+  | zero =>
+    intro acc s h hl
+    simp only [parseUnquoted] at hl ⊢
+    rw [cur_loaded hl]
+    exact ⟨[], by simp, by simp, by simp⟩
+  | succ f ih =>
+    intro acc s h hl
+    simp only [parseUnquoted] at hl ⊢
+    split
+    · rename_i hu
+      rw [if_pos hu] at hl
+      have h1 := Lv.step hN h (inUnquoted_nz hu)
+      obtain ⟨x, e1, e2, e3⟩ := ih ((cur s).1 :: acc) _ h1 hl
+      obtain ⟨hX, hXc, _, _⟩ := Lv.look hN h
+      obtain ⟨b1, b2⟩ := Ld_d0.byte hX
+      have hp := (Lv.look hN h1).2.2.2 (mv_loaded _)
+      have hm : (mv (cur s).2).l.pos = (cur s).2.l.pos := rfl
+      refine ⟨(cur s).1 :: x, by rw [e1]; simp, ?_, ?_⟩
+      · intro c hc
+        rcases List.mem_cons.mp hc with rfl | hc
+        · exact hu
+        · exact e2 c hc
+      · rw [e3, hp, hm]
+        have : (cur s).2.l.pos + 1 - 1 = ((cur s).2.l.pos - 1) + 1 := by omega
+        rw [this, List.take_add_one, b2, hXc]
+        simp
+    · exact ⟨[], by simp, by simp, by simp⟩
 
 /-- the byte before the latched one is a number byte -/
 def PrevNum (cfg : Cfg) (t : List Byte) (s : St) : Prop :=
